@@ -679,8 +679,55 @@ def check_grlex(facts, rep):
         if shapes == {'total-then-lex'} or shapes == {'delegates to the wrapped multi-degree'} or \
                 (shapes <= {'lex-only', 'single exponent'} and shapes and '::var::Var<' in st):
             rep.ok('E8.F9-grlex', inst, sorted(shapes)[0])
+            continue
+        # by value: fold the function over the 9 outcomes of (cmp of the totals, cmp_lex)
+        from dtree import DTree, Stuck, ordering_atom, LESS, EQ, GT
+        dt = DTree(facts)
+
+        def side(x):
+            x = re.sub(r'\^_ref__', '^', x)
+            if '^self' in x and '^other' not in x:
+                return 'self'
+            if '^other' in x and '^self' not in x:
+                return 'other'
+            if '^' not in x and 'arg1' in x and 'arg2' not in x:
+                return 'self'
+            if '^' not in x and 'arg2' in x and 'arg1' not in x:
+                return 'other'
+            return None
+
+        def classify(t):
+            nm = t[1].split('::')[-1]
+            a = [sk(x) for x in t[2]]
+            if len(a) != 2:
+                return None
+            sd = (side(a[0]), side(a[1]))
+            if sd not in (('self', 'other'), ('other', 'self')):
+                return None
+            if nm == 'cmp_lex':
+                return ('lex', sd[0] == 'other')
+            if nm == 'cmp' and all('total' in x for x in a):
+                return ('total', sd[0] == 'other')
+            return None
+        bad = None
+        used = set()
+        try:
+            for ot in (LESS, EQ, GT):
+                for ox in (LESS, EQ, GT):
+                    got, _ = dt.decide(b.defp, {1: ('self',), 2: ('other',)}, ordering_atom(dt, facts, {'total': ot, 'lex': ox}, classify, used))
+                    if isinstance(got, dict) and '<variant>' in got:
+                        got = {'Less': LESS, 'Equal': EQ, 'Greater': GT}.get(got['<variant>'], got)
+                    want = ot if ot != EQ else ox
+                    if got != want and bad is None:
+                        nm = {LESS: 'Less', EQ: 'Equal', GT: 'Greater'}
+                        bad = 'for (total, lex) comparing as (%s, %s) it answers %s' % (nm[ot], nm[ox], nm.get(got, got))
+        except (Stuck, KeyError, TypeError) as e:
+            rep.indet('E8.F9: %s outside the recognised fragment: %s (%s)' % (b.defp, sorted(shapes), str(e)[:80]))
+            continue
+        if bad or used != {'total', 'lex'}:
+            rep.violation('E8.F9-grlex', inst, '%s is not "compare total degree, then lex": %s' % (b.defp, bad or 'it consults %s only' % sorted(used)), where=b.where())
         else:
-            rep.violation('E8.F9-grlex', inst, '%s is not "compare total degree, then lex" (%s)' % (b.defp, sorted(shapes)), where=b.where())
+            rep.ok('E8.F9-grlex', inst, 'total degree, then lex, on all 9 outcome pairs')
     rep.floor('E8.F9 cmp_grlex implementations', n, 4)
 
 
